@@ -3,7 +3,7 @@ The reference encoder that makes every X.690 choice nondeterministically is lean
 `berVariant`, driven by a random choice script (driver op VARIANT)."""
 import json
 
-from harness import common, gen, codec, engine, sigs
+from harness import common, gen, codec, engine, sigs, wire
 
 CORPUS = [
     # (type, value, script)
@@ -67,6 +67,76 @@ def check_case(rep, drv, case, scripts):
                      dict(case.replay, kind='variant', script=list(script), bytes=data.hex()))
 
 
+def nested_bit_fragments(rep, rng, n):
+    """constructed BIT STRINGs whose fragments are constructed in turn (X.690 8.6.4), definite and indefinite at every
+    level, bare / implicitly / explicitly tagged / as a record member: the BER decoder returns the bits, with and
+    without a guiding type, from bytes and from a stream cut anywhere.  (The model keeps primitive fragments only; the
+    expectation is written out here.)"""
+    import io
+    from pyasn1.type import univ, tag, namedtype
+    from pyasn1.codec.ber import decoder as ber_dec
+
+    def prim(bits):
+        pad = -len(bits) % 8
+        body = int(bits + '0' * pad, 2).to_bytes((len(bits) + pad) // 8, 'big') if bits else b''
+        return b'\x03' + wire.emit_len(1 + len(body)) + bytes([pad]) + body
+
+    def build(bits, depth, ident=b'\x23'):
+        """(encoding, bits): a constructed BIT STRING split into fragments, some of them constructed again"""
+        k = rng.randrange(1, 4)
+        cuts = sorted(rng.randrange(0, len(bits) // 8 + 1) * 8 for _ in range(k - 1))
+        parts = [bits[a:b] for a, b in zip([0] + cuts, cuts + [len(bits)])]
+        body = b''
+        for i, p in enumerate(parts):
+            if i < len(parts) - 1 and len(p) % 8:
+                raise AssertionError
+            if not p and i < len(parts) - 1:
+                continue
+            if depth > 0 and rng.random() < 0.5 and p:
+                body += build(p, depth - 1)
+            else:
+                body += prim(p)
+        if not body:
+            body = prim('')
+        if rng.random() < 0.5:
+            return ident + b'\x80' + body + b'\x00\x00'
+        return ident + wire.emit_len(len(body)) + body
+    for i in range(n):
+        bits = ''.join(rng.choice('01') for _ in range(rng.choice([0, 1, 7, 8, 9, 15, 16, 17, 40, 41])))
+        where = rng.choice(['bare', 'implicit', 'explicit', 'member'])
+        if where == 'bare':
+            spec, data = univ.BitString(), build(bits, 3)
+        elif where == 'implicit':
+            spec = univ.BitString().subtype(implicitTag=tag.Tag(tag.tagClassContext, tag.tagFormatSimple, 5))
+            data = build(bits, 3, b'\xa5')
+        elif where == 'explicit':
+            spec = univ.BitString().subtype(explicitTag=tag.Tag(tag.tagClassApplication, tag.tagFormatConstructed, 40))
+            inner = build(bits, 3)
+            data = b'\x7f\x28' + wire.emit_len(len(inner)) + inner
+        else:
+            spec = univ.Sequence(componentType=namedtype.NamedTypes(namedtype.NamedType('n', univ.Integer()), namedtype.NamedType('b', univ.BitString())))
+            inner = b'\x02\x01\x07' + build(bits, 3)
+            data = b'\x30' + wire.emit_len(len(inner)) + inner
+        rep.evaluations += 1
+        rep.count('nested-bit-fragments')
+        rep.case('nested-bits %s %s' % (where, data.hex()[:80]), nontrivial=True)
+        replay = {'kind': 'nested-bit-fragments', 'where': where, 'bits': bits, 'bytes': data.hex()}
+        for with_spec in (True, False):
+            if not with_spec and where == 'implicit':
+                continue
+            try:
+                v, rest = ber_dec.decode(data + b'\x05\x00', **({'asn1Spec': spec} if with_spec else {}))
+                got = v['b'] if where == 'member' and with_spec else (v[1] if where == 'member' else v)
+                got = got.asBinary() if len(got) else ''
+                if rest != b'\x05\x00':
+                    got += ' rest=' + rest.hex()
+            except Exception as e:  # noqa
+                got = 'ERR %s' % type(e).__name__
+            if got != bits:
+                rep.fail('nested-bit-fragments', 'decoded %s, the encoding denotes %s (%s guiding type)' % (got[:80], bits[:80], 'with' if with_spec else 'without'), replay)
+                break
+
+
 def run(rep, tier, seed):
     common.prove(rep)
     rng = common.rng_for(seed, 'C09')
@@ -78,6 +148,7 @@ def run(rep, tier, seed):
                 'strings, TRUE octet, SET rotation, DEFAULT presence; non-trivial = depth>=1 or tagged; distinct by (type,value,script)')
     rep.assumptions = ['the X.690 transcription and variant writer in lean/Asn1/X690.lean', 'text codecs trusted']
     from harness import sexp_types
+    nested_bit_fragments(rep, common.rng_for(seed, 'C09', 'nested-bits'), 300 if tier == 'quick' else 20000)
     for ts, vs, script in CORPUS:
         t = sexp_types.ty_of_sexp(gen.parse_sexps(ts)[0])
         v = gen.val_of_sexp(gen.parse_sexps(vs)[0])
